@@ -23,6 +23,12 @@ for d in sorted(glob.glob(os.path.join(ROOT, "seeded", "*"))):
     if pid in props and title:
         prev.append(title)
 extra = "\n\nAlready collected for this property (do NOT repeat these or trivial variants of them; look in OTHER environments / files / mechanisms among the anchored code, and prefer environments, modes, configurations and code paths that are rarely exercised; changes that only show under a specific multi-step history, a specific batch composition or a non-default configuration are the most valuable):\n" + "\n".join(f"  - {t}" for t in prev)
+if int(rnd) >= 4:
+    extra += ("\n\nFor this round, prefer changes of a kind NOT represented in the list above. Ideas: a change in a shared helper or base class that the anchored code "
+              "calls (rl4co/utils, rl4co/envs/common, rl4co/models/common, rl4co/models/nn) rather than in the anchored file itself; an effect that needs a HISTORY "
+              "(object reused across calls, second epoch, state left behind by a previous call); an effect that needs an unusual but documented CONFIGURATION "
+              "(constructor or generator argument that no test sets) or dtype/device/shape (batch size 1, a batch dimension of size equal to another dimension, "
+              "non-contiguous or expanded tensors, float64 inputs); an interaction of two documented options. Avoid boundary-comparison flips (<, <=) unless nothing else works.")
 extra += f"\n\nHousekeeping: test runs create large 'data/' and 'lightning_logs/' directories inside your worktree; delete both (rm -rf {wt}/data {wt}/lightning_logs) before you finish. Use at most 4 CPU cores (e.g. OMP_NUM_THREADS=2). The test suite takes 5-10 minutes; run it in the background with output to a file and a generous timeout rather than blocking on it. Do NOT use 'git stash' (shared between worktrees of other people working in parallel): keep your changes as patch files and use 'git apply' / 'git apply -R' / 'git checkout -- rl4co'. Do not use pkill/killall with patterns that could match other people's processes.\n"
 out = f"/tmp/seed{rnd}-prompt-{pid}.txt"
 open(out, "w").write(base + extra)
